@@ -1,6 +1,7 @@
 import KM.Model.GoLite
 import KM.Model.GoTypes
 import KM.Gen.GoAuth
+import KM.Gen.GoCheckAuth
 /-! # C06 — the session-cookie tail of `checkAuth` as TRANSLATED from the current source (go2lean, tail block)
 
 The statements of `checkAuth` from `info, err := state.getAuthInfoFromAuthJWT(authCookie.Value)` to the end of the
@@ -86,3 +87,256 @@ example : (KM.Gen.GoAuth.checkAuthCookieTail (exCookieExt true false) ['c'] 64).
     (KM.Gen.GoAuth.checkAuthCookieTail (exCookieExt false false) ['c'] 64).1.1 = none := by decide
 
 end KM.Auth
+
+/-! ## `checkAuth`, the WHOLE function (`KM/Gen/GoCheckAuth.lean`, translated with join points)
+
+The CSRF test, the two client-certificate evaluations, the search for the auth cookie, Basic auth against the password
+backend, and the cookie tail — every statement of the function as it reads in the current tree.  External and
+arbitrary: `Origin`/`Referer`, `url.Parse`, the certificate evaluations over the verified chains, Basic-auth parsing,
+the attempt limiter, user-name normalisation, the password backend, the clock, `getAuthInfoFromAuthJWT`, the expiry
+test. -/
+namespace KM.CheckAuthGo
+open KM.GoTypes KM.Go
+
+/-- the cookie `checkAuth` ends up with: the LAST request cookie named `auth_cookie` -/
+def lastNamed (nm : List Char) (cs : List Cookie) (st : Option Cookie) : Option Cookie :=
+  cs.foldl (fun acc c => if c.name != nm then acc else some c) st
+def lastAuth (cs : List Cookie) : Option Cookie := lastNamed "auth_cookie".toList cs none
+
+/-- what it takes for `checkAuth` to hand an identity to a handler -/
+def Admitted (ext : CheckAuthExt) (hasTLS hasChains : Bool) (cookies : List Cookie) (req : Nat) (info : authInfo) :
+    Prop :=
+  (info.AuthType &&& req) ≠ 0 ∧
+  ((hasTLS = true ∧ hasChains = true ∧ info.Username ≠ [] ∧
+      ((∃ nb, ext.kmSigned = (info.Username, nb, none) ∧ info.AuthType = 512 ∧ info.IssuedAt = nb) ∨
+       (∃ nb, (req &&& 32) ≠ 0 ∧ ext.ipRestricted = (info.Username, nb, none, none) ∧ info.IssuedAt = nb ∧
+          (info.AuthType = 32 ∨ info.AuthType = 544)))) ∨
+   (lastAuth cookies = none ∧ ∃ u p, ext.basicAuth = (u, p, true) ∧ ext.attemptLimit u = none ∧
+      ext.checkPassword (ext.reprocess u) p = (true, none) ∧ info = ⟨ext.reprocess u, 2, 0, ext.now⟩) ∨
+   (∃ c, lastAuth cookies = some c ∧ ext.getAuthInfo c.value = (info, none) ∧ ext.expired info = false))
+
+/-- an answer of `checkAuth`: an identity comes with no error and only when `Admitted`; no identity comes with an error -/
+def Good (ext : CheckAuthExt) (hasTLS hasChains : Bool) (cookies : List Cookie) (req : Nat)
+    (r : (Option authInfo × Option Err) × List AuthEffect) : Prop :=
+  match r.1 with
+  | (some info, e) => e = none ∧ Admitted ext hasTLS hasChains cookies req info
+  | (none, e) => e.isSome = true
+
+theorem good_none {ext : CheckAuthExt} {hasTLS hasChains : Bool} {cookies : List Cookie} {req : Nat}
+    {e : Option Err} {t : List AuthEffect} (h : e.isSome = true) :
+    Good ext hasTLS hasChains cookies req ((none, e), t) := h
+
+theorem good_some {ext : CheckAuthExt} {hasTLS hasChains : Bool} {cookies : List Cookie} {req : Nat}
+    {info : authInfo} {t : List AuthEffect} (h : Admitted ext hasTLS hasChains cookies req info) :
+    Good ext hasTLS hasChains cookies req ((some info, none), t) := ⟨rfl, h⟩
+
+theorem cookie_loop (nm : List Char) (cs : List Cookie) (st : Option Cookie) :
+    KM.Go.forRange (ρ := (Option authInfo × Option Err) × List AuthEffect) (cs.map some) st (fun cookie st => match st with
+        | authCookie =>
+          if ((KM.GoTypes.cookieName cookie) != nm) then
+            KM.Go.Ctl.next authCookie
+          else
+            let authCookie := cookie;
+            KM.Go.Ctl.next authCookie) =
+      .done (lastNamed nm cs st) := by
+  induction cs generalizing st with
+  | nil => simp [forRange, lastNamed]
+  | cons c cs ih =>
+    simp only [List.map_cons, forRange, lastNamed, List.foldl_cons, cookieName]
+    by_cases h : (c.name != nm) = true
+    · simp only [h, if_true]; exact ih st
+    · simp only [h, if_false]; exact ih (some c)
+
+/-- every answer of the translated `checkAuth` is `Good` -/
+theorem checkAuth_good (ext : CheckAuthExt) (method host : List Char) (hasTLS hasChains : Bool)
+    (cookies : List Cookie) (req : Nat) :
+    Good ext hasTLS hasChains cookies req
+      (KM.Gen.GoCheckAuth.checkAuth ext method host hasTLS hasChains cookies req) := by
+  obtain ⟨referer, parseURL, urlHost, kmSigned, ipRestricted, basicAuth, attemptLimit, reprocess, checkPassword, now,
+    getAuthInfo, expired⟩ := ext
+  obtain ⟨kmU, kmNb, kmErr⟩ := kmSigned
+  obtain ⟨ipU, ipNb, ipUserErr, ipErr⟩ := ipRestricted
+  unfold KM.Gen.GoCheckAuth.checkAuth
+  extract_lets tr0 c0 e1 cfg e2 e3 e4 e5 k2 ad0 ad512 k3 k1 ref tr400 tr401
+  have h2 : ∀ tr, Good ⟨referer, parseURL, urlHost, (kmU, kmNb, kmErr), (ipU, ipNb, ipUserErr, ipErr), basicAuth, attemptLimit, reprocess,
+      checkPassword, now, getAuthInfo, expired⟩ hasTLS hasChains cookies req (k2 tr) := by
+    intro tr
+    unfold k2
+    rw [cookie_loop]
+    generalize hl' : lastNamed "auth_cookie".toList cookies c0 = la
+    have hl : lastAuth cookies = la := hl'
+    dsimp only
+    cases la with
+    | none =>
+      simp only [Option.isNone_none, if_true]
+      by_cases hp : ((2 &&& req) == 0) = true
+      · simp only [hp, if_true]; exact good_none rfl
+      · simp only [hp]
+        rcases hb : basicAuth with ⟨u, p, ok⟩
+        cases ok
+        · simp only [Bool.not_false, if_true]; exact good_none rfl
+        · simp only [Bool.not_true, Bool.false_eq_true, if_false]
+          cases ha : attemptLimit u with
+          | some e => simp only [Option.isSome_some, if_true]; exact good_none rfl
+          | none =>
+            simp only [Option.isSome_none, Bool.false_eq_true, if_false]
+            rcases hc : checkPassword (reprocess u) p with ⟨v, _ | e⟩
+            · cases v
+              · simp only [Option.isSome_none, Bool.false_eq_true, if_false, Bool.not_false, if_true]
+                exact good_none rfl
+              · simp only [Option.isSome_none, Bool.false_eq_true, if_false, Bool.not_true]
+                refine good_some ⟨?_, Or.inr (Or.inl ⟨hl, u, p, rfl, ha, hc, rfl⟩)⟩
+                simpa using hp
+            · simp only [Option.isSome_some, if_true]; exact good_none rfl
+    | some c =>
+      simp only [Option.isNone_some, Bool.false_eq_true, if_false, cookieValue]
+      by_cases he : (getAuthInfo c.value).2.isSome = true
+      · simp only [he, if_true]; exact good_none rfl
+      · simp only [he]
+        have hg : getAuthInfo c.value = ((getAuthInfo c.value).1, none) := by
+          cases h : (getAuthInfo c.value).2 with
+          | none => exact Prod.ext rfl h
+          | some e => rw [h] at he; simp at he
+        by_cases hx : expired (getAuthInfo c.value).1 = true
+        · simp only [hx, if_true]; exact good_none rfl
+        · simp only [hx]
+          by_cases hlv : (((getAuthInfo c.value).1.AuthType &&& req) == 0) = true
+          · simp only [hlv, if_true]; exact good_none rfl
+          · simp only [hlv]
+            exact good_some ⟨by simpa using hlv, Or.inr (Or.inr ⟨c, hl, hg, by simpa using hx⟩)⟩
+  have h3 : ∀ ad tr, (ad.Username ≠ [] → hasTLS = true ∧ hasChains = true ∧
+        ((∃ nb, (kmU, kmNb, kmErr) = (ad.Username, nb, none) ∧ ad.AuthType = 512 ∧ ad.IssuedAt = nb) ∨
+         (∃ nb, (req &&& 32) ≠ 0 ∧ (ipU, ipNb, ipUserErr, ipErr) = (ad.Username, nb, none, none) ∧ ad.IssuedAt = nb ∧
+            (ad.AuthType = 32 ∨ ad.AuthType = 544)))) →
+      Good ⟨referer, parseURL, urlHost, (kmU, kmNb, kmErr), (ipU, ipNb, ipUserErr, ipErr), basicAuth, attemptLimit,
+        reprocess, checkPassword, now, getAuthInfo, expired⟩ hasTLS hasChains cookies req (k3 (ad, tr)) := by
+    intro ad tr hok
+    unfold k3
+    dsimp only
+    by_cases hc : (ad.Username != [] && ad.AuthType &&& req != 0) = true
+    · simp only [hc, if_true]
+      have hc' : ad.Username ≠ [] ∧ (ad.AuthType &&& req) ≠ 0 := by simpa using hc
+      obtain ⟨h1, h2', h3'⟩ := hok hc'.1
+      exact good_some ⟨hc'.2, Or.inl ⟨h1, h2', hc'.1, h3'⟩⟩
+    · simp only [hc]; exact h2 tr
+  have h1 : ∀ tr, Good ⟨referer, parseURL, urlHost, (kmU, kmNb, kmErr), (ipU, ipNb, ipUserErr, ipErr), basicAuth,
+      attemptLimit, reprocess, checkPassword, now, getAuthInfo, expired⟩ hasTLS hasChains cookies req (k1 tr) := by
+    intro tr
+    unfold k1
+    dsimp only
+    by_cases hA : (req &&& (32 ||| 512) != 0 && hasTLS) = true
+    · simp only [hA, if_true]
+      have hT : hasTLS = true := by
+        cases hasTLS
+        · simp at hA
+        · rfl
+      by_cases hCh0 : hasChains = false
+      · simp only [hCh0, Bool.false_eq_true, if_false]; rw [← hCh0]; exact h2 tr
+      · have hCh : hasChains = true := by cases hasChains <;> simp_all
+        rw [if_pos hCh]
+        have e512 : ad512.AuthType = 512 := by simp [ad512, ad0]
+        have e544 : (ad512.AuthType ||| 32) = 544 := by simp [ad512, ad0]
+        have e32 : (ad0.AuthType ||| 32) = 32 := by simp [ad0]
+        have eU0 : ad0.Username = [] := by simp [ad0]
+        by_cases hk : (kmErr.isNone && kmU != []) = true
+        · have hk' : kmErr = none ∧ kmU ≠ [] := by simpa using hk
+          have hne : (kmU == ([] : List Char)) = false := by simpa using hk'.2
+          simp only [hk, if_true, hne, Bool.false_eq_true, if_false]
+          by_cases h32 : (req &&& 32 != 0) = true
+          · simp only [h32, if_true]
+            by_cases hip : (ipErr.isNone && ipUserErr.isNone) = true
+            · have hip' : ipErr = none ∧ ipUserErr = none := by simpa using hip
+              simp only [hip, if_true]
+              apply h3
+              intro _
+              refine ⟨hT, hCh, Or.inr ⟨ipNb, by simpa using h32, ?_, rfl, Or.inr e544⟩⟩
+              rw [hip'.1, hip'.2]
+            · simp only [hip, Bool.false_eq_true, if_false]
+              apply h3
+              intro _
+              refine ⟨hT, hCh, Or.inl ⟨kmNb, ?_, e512, rfl⟩⟩
+              rw [hk'.1]
+          · simp only [h32, Bool.false_eq_true, if_false]
+            apply h3
+            intro _
+            refine ⟨hT, hCh, Or.inl ⟨kmNb, ?_, e512, rfl⟩⟩
+            rw [hk'.1]
+        · simp only [hk, Bool.false_eq_true, if_false]
+          by_cases h32 : (req &&& 32 != 0) = true
+          · simp only [h32, if_true]
+            have hU : (ad0.Username == ([] : List Char)) = true := by simp [ad0]
+            simp only [hU, if_true]
+            by_cases hue : ipUserErr.isSome = true
+            · rw [if_pos hue]; exact good_none hue
+            · rw [if_neg hue]
+              by_cases hie : ipErr.isSome = true
+              · rw [if_pos hie]; exact good_none hie
+              · rw [if_neg hie]
+                have hn : ipErr = none ∧ ipUserErr = none := by
+                  constructor
+                  · cases h : ipErr with
+                    | none => rfl
+                    | some e => rw [h] at hie; simp at hie
+                  · cases h : ipUserErr with
+                    | none => rfl
+                    | some e => rw [h] at hue; simp at hue
+                have hip : (ipErr.isNone && ipUserErr.isNone) = true := by rw [hn.1, hn.2]; rfl
+                rw [if_pos hip]
+                apply h3
+                intro _
+                refine ⟨hT, hCh, Or.inr ⟨ipNb, by simpa using h32, ?_, rfl, Or.inl e32⟩⟩
+                rw [hn.1, hn.2]
+          · simp only [h32, Bool.false_eq_true, if_false]
+            apply h3
+            intro hne
+            exact absurd eU0 hne
+    · simp only [hA, Bool.false_eq_true, if_false]; exact h2 tr
+  by_cases hm : (method != "GET".toList) = true
+  · simp only [hm, if_true]
+    by_cases hr : (decide (List.length ref > 0) && decide (host.length > 0)) = true
+    · simp only [hr, if_true]
+      by_cases he : (parseURL ref).2.isSome = true
+      · simp only [he, if_true]; exact good_none he
+      · simp only [he, Bool.false_eq_true, if_false]
+        by_cases hh : (urlHost (parseURL ref).1 != host) = true
+        · simp only [hh, if_true]; exact good_none rfl
+        · simp only [hh, Bool.false_eq_true, if_false]; exact h1 tr0
+    · simp only [hr, Bool.false_eq_true, if_false]; exact h1 tr0
+  · simp only [hm, Bool.false_eq_true, if_false]; exact h1 tr0
+
+
+/-- **no identity without a valid credential the endpoint accepts** (C06, C01), on the translated source of the whole
+of `checkAuth`: whenever it hands an identity to a handler there is no error, the identity's level has a bit of the
+endpoint's mask, and the identity is — a verified client certificate (keymaster-signed, or IP-restricted when the
+endpoint accepts those and both its evaluations succeeded) over TLS with a verified chain; or, with NO auth cookie in
+the request, the Basic-auth user whose password the backend confirmed after the attempt limiter let the attempt through
+(level: password only); or what `getAuthInfoFromAuthJWT` verified from the LAST `auth_cookie` of the request, not
+expired. -/
+theorem c06_go_check_auth_admits (ext : CheckAuthExt) (method host : List Char) (hasTLS hasChains : Bool)
+    (cookies : List Cookie) (req : Nat) (info : authInfo) (e : Option Err)
+    (h : (KM.Gen.GoCheckAuth.checkAuth ext method host hasTLS hasChains cookies req).1 = (some info, e)) :
+    e = none ∧ Admitted ext hasTLS hasChains cookies req info := by
+  have := checkAuth_good ext method host hasTLS hasChains cookies req
+  unfold Good at this
+  rw [h] at this
+  exact this
+
+/-- and when it hands out no identity it returns an error (the caller stops) -/
+theorem c06_go_check_auth_refuses (ext : CheckAuthExt) (method host : List Char) (hasTLS hasChains : Bool)
+    (cookies : List Cookie) (req : Nat)
+    (h : (KM.Gen.GoCheckAuth.checkAuth ext method host hasTLS hasChains cookies req).1.1 = none) :
+    (KM.Gen.GoCheckAuth.checkAuth ext method host hasTLS hasChains cookies req).1.2.isSome = true := by
+  have := checkAuth_good ext method host hasTLS hasChains cookies req
+  unfold Good at this
+  rcases hr : (KM.Gen.GoCheckAuth.checkAuth ext method host hasTLS hasChains cookies req).1 with ⟨_ | i, e⟩
+  · rw [hr] at this; exact this
+  · rw [hr] at h; cases h
+
+/-- a level outside the endpoint's mask is never admitted, whatever the credential -/
+theorem c06_go_check_auth_mask (ext : CheckAuthExt) (method host : List Char) (hasTLS hasChains : Bool)
+    (cookies : List Cookie) (req : Nat) (info : authInfo) (e : Option Err)
+    (h : (KM.Gen.GoCheckAuth.checkAuth ext method host hasTLS hasChains cookies req).1 = (some info, e)) :
+    (info.AuthType &&& req) ≠ 0 :=
+  (c06_go_check_auth_admits ext method host hasTLS hasChains cookies req info e h).2.1
+
+end KM.CheckAuthGo
